@@ -1,11 +1,21 @@
 //! C14 — Global connectivity is healthy exactly when every exchange link is.
 //!
-//! E-BFS to fixpoint through the real `Engine::process`, for 1, 2 and 3 exchanges. State = the
-//! connectivity flags of the real engine state (2 per exchange + global). The reference model (flags
-//! as the statement defines them) is recomputed from the same state: since the invariant
+//! Layer 1: E-BFS to fixpoint through the real `Engine::process`, for a list of engine
+//! *configurations* (`configs`): 1, 2 and 3 exchanges; exchange sets whose `ExchangeId` order (= the
+//! `ExchangeIndex` order) differs from the alphabetical order of their names (rotated and reversed), so
+//! that an index/identity mix-up cannot hide; trading enabled and disabled; exchanges with a healthy
+//! execution link, a closed one and none at all (also "none" placed before a linked one). State = the
+//! connectivity flags of the real engine state (2 per exchange + global), read and written **by
+//! `ExchangeId`** (the key of the map the statement talks about). The reference model (flags as the
+//! statement defines them) is recomputed from the same state: since the invariant
 //! `global == all healthy` is checked in every reached state and the per-link flags of the model and
 //! the implementation must agree after every step, a divergence is reported on the step that causes
 //! it and the search continues from the implementation's state.
+//!
+//! Layer 2 (`persistent`): every sequence of length <= L over a reduced alphabet executed on ONE engine
+//! that is never rebuilt (orders, positions, sequence numbers, clock and any other state the engine
+//! keeps accumulate), judged step by step with the same oracle. It removes the assumption of layer 1
+//! that connectivity depends on the connectivity flags only.
 
 use super::common::*;
 use crate::core::{Ctx, Outcome, hash_of};
@@ -20,19 +30,25 @@ use barter::{
     execution::AccountStreamEvent,
 };
 use barter_data::{
-    books::Level,
+    books::{Level, OrderBook},
     event::{DataKind, MarketEvent},
     streams::consumer::MarketStreamEvent,
-    subscription::{book::OrderBookL1, liquidation::Liquidation, trade::PublicTrade},
+    subscription::{
+        book::{OrderBookEvent, OrderBookL1},
+        candle::Candle,
+        liquidation::Liquidation,
+        trade::PublicTrade,
+    },
 };
 use barter_execution::{
-    AccountEvent, AccountEventKind, AccountSnapshot,
+    AccountEvent, AccountEventKind, AccountSnapshot, InstrumentAccountSnapshot,
     balance::{AssetBalance, Balance},
+    error::{ApiError, ConnectivityError, OrderError},
     order::{
         Order, OrderKey, OrderKind, TimeInForce,
         id::{ClientOrderId, OrderId},
         request::OrderResponseCancel,
-        state::{Cancelled, OrderState},
+        state::{Cancelled, Open, OrderState},
     },
     trade::{AssetFees, Trade, TradeId},
 };
@@ -44,15 +60,20 @@ use barter_instrument::{
     instrument::InstrumentIndex,
 };
 use barter_integration::snapshot::Snapshot;
+use rayon::prelude::*;
 use rust_decimal::Decimal;
 use serde::{Deserialize, Serialize};
 use serde_json::{Value, json};
 
 #[derive(Debug, Clone, Copy, PartialEq, Eq, Hash, Serialize, Deserialize)]
 pub enum Act {
-    /// (exchange, market event kind: 0 trade, 1 top of book, 2 liquidation)
+    /// (exchange, market event kind: 0 trade, 1 top of book, 2 liquidation, 3 L2 book snapshot, 4 candle,
+    /// 5 trade on the exchange's FIRST instrument, 6 trade stamped before every other event (late arrival))
     MarketItem(usize, u8),
-    /// (exchange, account event kind: 0 balance, 1 order snapshot, 2 trade, 3 full snapshot, 4 cancel response)
+    /// (exchange, account event kind: 0 balance, 1 order snapshot (fully filled), 2 trade, 3 full snapshot
+    /// (balances), 4 cancel response ok, 5 order snapshot (open), 6 order snapshot (open failed: request timed
+    /// out), 7 cancel response err, 8 full snapshot carrying an open order, 9 order snapshot (open failed:
+    /// rejected) on the exchange's FIRST instrument)
     AccountItem(usize, u8),
     MarketReconnecting(usize),
     AccountReconnecting(usize),
@@ -65,37 +86,80 @@ pub struct St {
     global: bool,
 }
 
+/// One engine configuration (a dimension the statement quantifies over: "any number of exchanges").
+#[derive(Debug, Clone)]
+pub struct Cfg {
+    label: String,
+    exchanges: Vec<ExchangeId>,
+    trading: TradingState,
+    /// execution link per exchange in `ExchangeIndex` order (None = tracked but not traded on)
+    links: Vec<Option<TxMode>>,
+}
+
+fn cfg(label: &str, exchanges: &[ExchangeId], trading: TradingState, links: &[Option<TxMode>]) -> Cfg {
+    Cfg { label: label.to_string(), exchanges: exchanges.to_vec(), trading, links: links.to_vec() }
+}
+
+/// All configurations explored (both tiers: the spaces are tiny).
+fn configs() -> Vec<Cfg> {
+    use ExchangeId::*;
+    let h = Some(TxMode::Healthy);
+    vec![
+        // the original three (labels kept stable)
+        cfg("exchanges=1", &EXCHANGES[..1], TradingState::Disabled, &[h]),
+        cfg("exchanges=2", &EXCHANGES[..2], TradingState::Disabled, &[h, h]),
+        cfg("exchanges=3", &EXCHANGES[..3], TradingState::Disabled, &[h, h, h]),
+        // ExchangeId order Mock < BinanceSpot < Kraken, names binance_spot < kraken < mock (rotated)
+        cfg("set=mock+binance_spot+kraken", &[Mock, BinanceSpot, Kraken], TradingState::Disabled, &[h, h, h]),
+        // ExchangeId order Other < Bitvavo < Bithumb, names bithumb < bitvavo < other (reversed); trading enabled
+        cfg("set=other+bitvavo+bithumb/trading=enabled", &[Other, Bitvavo, Bithumb], TradingState::Enabled, &[h, h, h]),
+        // an exchange without execution link placed before a linked one, and one whose link is closed
+        cfg("exchanges=3/trading=enabled/links=none+healthy+closed", &EXCHANGES[..3], TradingState::Enabled, &[None, h, Some(TxMode::Closed)]),
+        cfg("exchanges=2/links=healthy+none", &EXCHANGES[..2], TradingState::Disabled, &[h, None]),
+        cfg("exchanges=2/links=none+none", &EXCHANGES[..2], TradingState::Disabled, &[None, None]),
+    ]
+}
+
 pub struct M {
+    cfg: Cfg,
     n: usize,
     instruments: IndexedInstruments,
 }
 
+const MARKET_KINDS: u8 = 7;
+const ACCOUNT_KINDS: u8 = 10;
+
 impl M {
-    pub fn new(n: usize) -> Self {
+    pub fn new(cfg: Cfg) -> Self {
         let mut b = IndexedInstruments::builder();
-        for (i, ex) in EXCHANGES.iter().take(n).enumerate() {
+        for (i, ex) in cfg.exchanges.iter().enumerate() {
             b = b.add_instrument(spot(*ex, &format!("i{i}"), &format!("I{i}"), "btc", "usdt"));
-            // a second instrument on the first exchange so instrument index != exchange index
+            // a second instrument on the first-listed exchange so instrument index != exchange index
             if i == 0 {
                 b = b.add_instrument(spot(*ex, "i0b", "I0B", "eth", "usdt"));
             }
         }
-        Self { n, instruments: b.build() }
+        let instruments = b.build();
+        // `exchanges` is given in ExchangeId order, which is the ExchangeIndex order the builder assigns
+        assert!(
+            instruments.exchanges().iter().map(|e| e.value).eq(cfg.exchanges.iter().copied()),
+            "harness: configuration exchanges must be listed in ExchangeId order"
+        );
+        Self { n: cfg.exchanges.len(), cfg, instruments }
     }
 
     fn exchange_id(&self, x: usize) -> ExchangeId {
         self.instruments.exchanges()[x].value
     }
 
+    /// last (`first == false`) or first instrument of that exchange (for exchange 0 the last one has
+    /// index 1, for exchange 1 index 2, ... so instrument index != exchange index)
+    fn instrument_of(&self, x: usize, first: bool) -> InstrumentIndex {
+        let mut it = self.instruments.instruments().iter().filter(|i| i.value.exchange.key == ExchangeIndex(x));
+        if first { it.next().unwrap().key } else { it.last().unwrap().key }
+    }
     fn instrument_on(&self, x: usize) -> InstrumentIndex {
-        // last instrument of that exchange (so that for exchange 0 the index is 1, for exchange 1 it is 2…)
-        self.instruments
-            .instruments()
-            .iter()
-            .filter(|i| i.value.exchange.key == ExchangeIndex(x))
-            .last()
-            .unwrap()
-            .key
+        self.instrument_of(x, false)
     }
 
     fn asset_on(&self, x: usize) -> AssetIndex {
@@ -110,48 +174,56 @@ impl M {
 
     fn event(&self, a: &Act) -> Event {
         match *a {
-            Act::MarketItem(x, k) => EngineEvent::Market(MarketStreamEvent::Item(MarketEvent {
-                time_exchange: t_plus(1),
-                time_received: t_plus(1),
-                exchange: self.exchange_id(x),
-                instrument: self.instrument_on(x),
-                kind: match k {
-                    0 => DataKind::Trade(PublicTrade { id: "1".into(), price: 100.0, amount: 1.0, side: Side::Buy }),
-                    1 => DataKind::OrderBookL1(OrderBookL1 {
-                        last_update_time: t_plus(1),
-                        best_bid: Some(Level::new(Decimal::from(99), Decimal::ONE)),
-                        best_ask: Some(Level::new(Decimal::from(101), Decimal::ONE)),
-                    }),
-                    _ => DataKind::Liquidation(Liquidation { side: Side::Sell, price: 100.0, quantity: 1.0, time: t_plus(1) }),
-                },
-            })),
+            Act::MarketItem(x, k) => {
+                let t = if k == 6 { t_plus(-3600) } else { t_plus(1) };
+                EngineEvent::Market(MarketStreamEvent::Item(MarketEvent {
+                    time_exchange: t,
+                    time_received: t_plus(1),
+                    exchange: self.exchange_id(x),
+                    instrument: self.instrument_of(x, k == 5),
+                    kind: match k {
+                        0 | 5 | 6 => DataKind::Trade(PublicTrade { id: "1".into(), price: 100.0, amount: 1.0, side: Side::Buy }),
+                        1 => DataKind::OrderBookL1(OrderBookL1 {
+                            last_update_time: t_plus(1),
+                            best_bid: Some(Level::new(Decimal::from(99), Decimal::ONE)),
+                            best_ask: Some(Level::new(Decimal::from(101), Decimal::ONE)),
+                        }),
+                        2 => DataKind::Liquidation(Liquidation { side: Side::Sell, price: 100.0, quantity: 1.0, time: t_plus(1) }),
+                        3 => DataKind::OrderBook(OrderBookEvent::Snapshot(OrderBook::new(
+                            1,
+                            None,
+                            vec![Level::new(Decimal::from(99), Decimal::ONE)],
+                            vec![Level::new(Decimal::from(101), Decimal::ONE)],
+                        ))),
+                        _ => DataKind::Candle(Candle { close_time: t_plus(1), open: 100.0, high: 101.0, low: 99.0, close: 100.0, volume: 1.0, trade_count: 1 }),
+                    },
+                }))
+            }
             Act::AccountItem(x, k) => {
-                let key = OrderKey {
-                    exchange: ExchangeIndex(x),
-                    instrument: self.instrument_on(x),
-                    strategy: strategy_id(),
-                    cid: ClientOrderId::new("c"),
-                };
+                let instrument = self.instrument_of(x, k == 9);
+                let key = OrderKey { exchange: ExchangeIndex(x), instrument, strategy: strategy_id(), cid: ClientOrderId::new("c") };
                 let balance = AssetBalance {
                     asset: self.asset_on(x),
                     balance: Balance::new(Decimal::ONE, Decimal::ONE),
                     time_exchange: t_plus(1),
                 };
+                let order = |state: OrderState| Order {
+                    key: key.clone(),
+                    side: Side::Buy,
+                    price: Decimal::from(100),
+                    quantity: Decimal::ONE,
+                    kind: OrderKind::Limit,
+                    time_in_force: TimeInForce::GoodUntilCancelled { post_only: false },
+                    state,
+                };
+                let open = || OrderState::active(Open { id: OrderId::new("o"), time_exchange: t_plus(1), filled_quantity: Decimal::ZERO });
                 let kind = match k {
                     0 => AccountEventKind::BalanceSnapshot(Snapshot(balance)),
-                    1 => AccountEventKind::OrderSnapshot(Snapshot(Order {
-                        key,
-                        side: Side::Buy,
-                        price: Decimal::from(100),
-                        quantity: Decimal::ONE,
-                        kind: OrderKind::Limit,
-                        time_in_force: TimeInForce::GoodUntilCancelled { post_only: false },
-                        state: OrderState::fully_filled(),
-                    })),
+                    1 => AccountEventKind::OrderSnapshot(Snapshot(order(OrderState::fully_filled()))),
                     2 => AccountEventKind::Trade(Trade {
                         id: TradeId::new("t"),
                         order_id: OrderId::new("o"),
-                        instrument: self.instrument_on(x),
+                        instrument,
                         strategy: strategy_id(),
                         time_exchange: t_plus(1),
                         side: Side::Buy,
@@ -160,10 +232,22 @@ impl M {
                         fees: AssetFees::quote_fees(Decimal::ZERO),
                     }),
                     3 => AccountEventKind::Snapshot(AccountSnapshot { exchange: ExchangeIndex(x), balances: vec![balance], instruments: vec![] }),
-                    _ => AccountEventKind::OrderCancelled(OrderResponseCancel {
-                        key,
+                    4 => AccountEventKind::OrderCancelled(OrderResponseCancel {
+                        key: key.clone(),
                         state: Ok(Cancelled { id: OrderId::new("o"), time_exchange: t_plus(1) }),
                     }),
+                    5 => AccountEventKind::OrderSnapshot(Snapshot(order(open()))),
+                    6 => AccountEventKind::OrderSnapshot(Snapshot(order(OrderState::inactive(OrderError::Connectivity(ConnectivityError::Timeout))))),
+                    7 => AccountEventKind::OrderCancelled(OrderResponseCancel {
+                        key: key.clone(),
+                        state: Err(OrderError::Rejected(ApiError::OrderRejected("script".into()))),
+                    }),
+                    8 => AccountEventKind::Snapshot(AccountSnapshot {
+                        exchange: ExchangeIndex(x),
+                        balances: vec![balance],
+                        instruments: vec![InstrumentAccountSnapshot { instrument, orders: vec![order(open())] }],
+                    }),
+                    _ => AccountEventKind::OrderSnapshot(Snapshot(order(OrderState::inactive(OrderError::Rejected(ApiError::OrderRejected("script".into())))))),
                 };
                 EngineEvent::Account(AccountStreamEvent::Item(AccountEvent { exchange: ExchangeIndex(x), kind }))
             }
@@ -176,11 +260,16 @@ impl M {
         }
     }
 
+    fn fresh_engine(&self) -> SEngine {
+        build_engine(&self.instruments, self.cfg.trading, &self.cfg.links).0
+    }
+
     fn engine_from(&self, s: &St) -> SEngine {
-        let (mut engine, _links) = build_engine(&self.instruments, TradingState::Disabled, &[]);
+        let mut engine = self.fresh_engine();
         engine.state.connectivity.global = h(s.global);
         for (x, (m, a)) in s.links.iter().enumerate() {
-            let st = engine.state.connectivity.connectivity_index_mut(&ExchangeIndex(x));
+            // by ExchangeId: the key under which the engine state reports an exchange's links
+            let st = engine.state.connectivity.connectivity_mut(&self.exchange_id(x));
             st.market_data = h(*m);
             st.account = h(*a);
         }
@@ -191,53 +280,20 @@ impl M {
         St {
             links: (0..self.n)
                 .map(|x| {
-                    let st = engine.state.connectivity.connectivity_index(&ExchangeIndex(x));
+                    let st = engine.state.connectivity.connectivity(&self.exchange_id(x));
                     (st.market_data == Health::Healthy, st.account == Health::Healthy)
                 })
                 .collect(),
             global: engine.state.connectivity.global == Health::Healthy,
         }
     }
-}
 
-fn h(b: bool) -> Health {
-    if b { Health::Healthy } else { Health::Reconnecting }
-}
-
-impl Model for M {
-    type State = St;
-    type Action = Act;
-
-    fn init(&self) -> Vec<St> {
-        // the state the real builder produces (all reconnecting)
-        let (engine, _) = build_engine(&self.instruments, TradingState::Disabled, &[]);
-        vec![self.snapshot(&engine)]
-    }
-
-    fn actions(&self, _s: &St) -> Vec<Act> {
-        let mut v = Vec::new();
-        for x in 0..self.n {
-            for k in 0..3u8 {
-                v.push(Act::MarketItem(x, k));
-            }
-            for k in 0..5u8 {
-                v.push(Act::AccountItem(x, k));
-            }
-            v.push(Act::MarketReconnecting(x));
-            v.push(Act::AccountReconnecting(x));
-        }
-        v
-    }
-
-    fn step(&self, s: &St, a: &Act, out: &mut Vec<Viol>) -> Option<St> {
-        let mut engine = self.engine_from(s);
-        let event = self.event(a);
-        let Ok(audit) = crate::core::guarded(|| engine.process(event)) else {
-            out.push(("C14/panic/engine-process".to_string(), format!("before={s:?} event={a:?}: Engine::process panicked")));
-            return None;
-        };
-        let got = self.snapshot(&engine);
-
+    /// The oracle (the statement), for one processed event: `s` before, `got` after, `calls` = the
+    /// on_disconnect invocations made while processing it, `audit` = what `Engine::process` returned.
+    fn judge<A>(&self, s: &St, a: &Act, got: &St, calls: &[ExchangeId], audit: &A, out: &mut Vec<Viol>)
+    where
+        A: AuditOutputs,
+    {
         // reference: the statement
         let mut want = s.links.clone();
         let (x, expect_disc): (usize, Option<ExchangeId>) = match *a {
@@ -275,41 +331,26 @@ impl Model for M {
             }
             out.push((
                 format!("C14/link-flags/{kind}/{what}"),
-                format!("before={:?} event={a:?} links after={:?} expected={:?}", s, got.links, want),
+                format!("config={} before={:?} event={a:?} links after={:?} expected={:?}", self.cfg.label, s, got.links, want),
             ));
         }
         let all = got.links.iter().all(|(m, a)| *m && *a);
         if got.global != all {
             out.push((
-                format!(
-                    "C14/global-iff-all-healthy/{kind}/global={}-all={}",
-                    got.global, all
-                ),
-                format!("before={:?} event={a:?} after={:?}", s, got),
+                format!("C14/global-iff-all-healthy/{kind}/global={}-all={}", got.global, all),
+                format!("config={} before={:?} event={a:?} after={:?}", self.cfg.label, s, got),
             ));
         }
         // on_disconnect exactly once per notice, for the right exchange; never for items
-        let calls = &engine.strategy.disconnects;
         let want_calls: Vec<ExchangeId> = expect_disc.into_iter().collect();
-        if *calls != want_calls {
+        if calls != want_calls.as_slice() {
             out.push((
                 format!("C14/on-disconnect-calls/{kind}/got={}-want={}", calls.len(), want_calls.len()),
-                format!("event={a:?} on_disconnect calls={calls:?} expected={want_calls:?}"),
+                format!("config={} event={a:?} on_disconnect calls={calls:?} expected={want_calls:?}", self.cfg.label),
             ));
         }
         // audit carries the disconnect output
-        let outputs: Vec<_> = match &audit {
-            EngineAudit::Process(p) => p.outputs.iter().cloned().collect(),
-            EngineAudit::FeedEnded => vec![],
-        };
-        let disc_outputs: Vec<(bool, ExchangeId)> = outputs
-            .iter()
-            .filter_map(|o| match o {
-                EngineOutput::AccountDisconnect(e) => Some((true, *e)),
-                EngineOutput::MarketDisconnect(e) => Some((false, *e)),
-                _ => None,
-            })
-            .collect();
+        let disc_outputs = audit.disconnect_outputs();
         let want_outputs: Vec<(bool, ExchangeId)> = match *a {
             Act::MarketReconnecting(x) => vec![(false, self.exchange_id(x))],
             Act::AccountReconnecting(x) => vec![(true, self.exchange_id(x))],
@@ -318,14 +359,146 @@ impl Model for M {
         if disc_outputs != want_outputs {
             out.push((
                 format!("C14/audit-disconnect-output/{kind}"),
-                format!("event={a:?} audit disconnect outputs={disc_outputs:?} expected={want_outputs:?}"),
+                format!("config={} event={a:?} audit disconnect outputs={disc_outputs:?} expected={want_outputs:?}", self.cfg.label),
             ));
         }
+    }
+
+    fn all_actions(&self) -> Vec<Act> {
+        let mut v = Vec::new();
+        for x in 0..self.n {
+            for k in 0..MARKET_KINDS {
+                v.push(Act::MarketItem(x, k));
+            }
+            for k in 0..ACCOUNT_KINDS {
+                v.push(Act::AccountItem(x, k));
+            }
+            v.push(Act::MarketReconnecting(x));
+            v.push(Act::AccountReconnecting(x));
+        }
+        v
+    }
+}
+
+/// (is account disconnect, exchange) outputs of one audit
+trait AuditOutputs {
+    fn disconnect_outputs(&self) -> Vec<(bool, ExchangeId)>;
+}
+impl<E, T> AuditOutputs for EngineAudit<E, EngineOutput<T, ExchangeId>> {
+    fn disconnect_outputs(&self) -> Vec<(bool, ExchangeId)> {
+        match self {
+            EngineAudit::Process(p) => p
+                .outputs
+                .iter()
+                .filter_map(|o| match o {
+                    EngineOutput::AccountDisconnect(e) => Some((true, *e)),
+                    EngineOutput::MarketDisconnect(e) => Some((false, *e)),
+                    _ => None,
+                })
+                .collect(),
+            EngineAudit::FeedEnded => vec![],
+        }
+    }
+}
+
+fn h(b: bool) -> Health {
+    if b { Health::Healthy } else { Health::Reconnecting }
+}
+
+impl Model for M {
+    type State = St;
+    type Action = Act;
+
+    fn init(&self) -> Vec<St> {
+        // the state the real builder produces (all reconnecting)
+        vec![self.snapshot(&self.fresh_engine())]
+    }
+
+    fn actions(&self, _s: &St) -> Vec<Act> {
+        self.all_actions()
+    }
+
+    fn step(&self, s: &St, a: &Act, out: &mut Vec<Viol>) -> Option<St> {
+        let mut engine = self.engine_from(s);
+        let event = self.event(a);
+        let Ok(audit) = crate::core::guarded(|| engine.process(event)) else {
+            out.push(("C14/panic/engine-process".to_string(), format!("config={} before={s:?} event={a:?}: Engine::process panicked", self.cfg.label)));
+            return None;
+        };
+        let got = self.snapshot(&engine);
+        self.judge(s, a, &got, &engine.strategy.disconnects, &audit, out);
         Some(got)
     }
 
     fn impl_hash(&self, s: &St) -> Option<u64> {
         Some(hash_of(s))
+    }
+}
+
+// ---------------------------------------------------------------------------------------------
+// Layer 2: sequences on one persistent engine
+// ---------------------------------------------------------------------------------------------
+
+impl M {
+    /// Reduced alphabet of the persistent layer: per exchange a market trade, an account trade (builds
+    /// and closes positions), an open-order report (leaves a tracked order behind), both notices.
+    fn persistent_alphabet(&self) -> Vec<Act> {
+        let mut v = Vec::new();
+        for x in 0..self.n {
+            v.push(Act::MarketItem(x, 0));
+            v.push(Act::AccountItem(x, 2));
+            v.push(Act::AccountItem(x, 5));
+            v.push(Act::MarketReconnecting(x));
+            v.push(Act::AccountReconnecting(x));
+        }
+        v
+    }
+
+    /// Execute `seq` on one engine; judge every step. Returns (violations with the index of the step
+    /// that raised them, final flags).
+    fn run_sequence(&self, seq: &[Act]) -> (Vec<(usize, Viol)>, St) {
+        let mut engine = self.fresh_engine();
+        let mut cur = self.snapshot(&engine);
+        let mut all = Vec::new();
+        for (i, a) in seq.iter().enumerate() {
+            let calls_before = engine.strategy.disconnects.len();
+            let event = self.event(a);
+            let Ok(audit) = crate::core::guarded(|| engine.process(event)) else {
+                all.push((i, ("C14/panic/engine-process".to_string(), format!("config={} sequence={seq:?}: Engine::process panicked at step {i}", self.cfg.label))));
+                break;
+            };
+            let got = self.snapshot(&engine);
+            let mut out = Vec::new();
+            self.judge(&cur, a, &got, &engine.strategy.disconnects[calls_before..], &audit, &mut out);
+            all.extend(out.into_iter().map(|v| (i, v)));
+            cur = got;
+        }
+        (all, cur)
+    }
+
+    /// All sequences of length exactly `len` (every shorter sequence is a prefix of one of them and is
+    /// judged step by step). Returns (sequences, steps judged, distinct final flag states).
+    fn persistent(&self, ctx: &Ctx, len: usize) -> (u64, u64, usize) {
+        let alpha = self.persistent_alphabet();
+        let k = alpha.len();
+        let total = (k as u64).pow(len as u32);
+        let label = format!("persistent/{}", self.cfg.label);
+        let finals: std::collections::BTreeSet<u64> = (0..total)
+            .into_par_iter()
+            .map(|mut code| {
+                let mut seq = Vec::with_capacity(len);
+                for _ in 0..len {
+                    seq.push(alpha[(code % k as u64) as usize]);
+                    code /= k as u64;
+                }
+                let (viols, fin) = self.run_sequence(&seq);
+                for (i, (sig, detail)) in viols {
+                    ctx.violate(sig, detail, json!({"engine": "c14-persistent", "label": label, "seq": seq[..=i].to_vec()}));
+                }
+                hash_of(&fin)
+            })
+            .collect();
+        (total, total * len as u64, finals.len())
     }
 }
 
@@ -336,45 +509,77 @@ pub fn run(ctx: &Ctx) -> Outcome {
     let mut samples = Vec::new();
     let mut max_depth = 0;
     let mut fix = true;
-    for n in 1..=3usize {
-        let m = M::new(n);
-        let st = bfs::run(ctx, &m, &format!("exchanges={n}"), None, 5_000_000);
+    for c in configs() {
+        let m = M::new(c);
+        let st = bfs::run(ctx, &m, &m.cfg.label, None, 5_000_000);
         states += st.states;
         transitions += st.transitions;
         max_depth = max_depth.max(st.max_depth);
         fix &= st.fixpoint;
-        per_n.push(json!({"exchanges": n, "states": st.states, "transitions": st.transitions, "max_depth": st.max_depth, "fixpoint": st.fixpoint}));
-        samples.extend(st.samples);
+        per_n.push(json!({"configuration": m.cfg.label, "exchanges": m.cfg.exchanges.iter().map(|e| e.as_str()).collect::<Vec<_>>(),
+            "trading": format!("{:?}", m.cfg.trading), "links": m.cfg.links.iter().map(|l| format!("{l:?}")).collect::<Vec<_>>(),
+            "states": st.states, "transitions": st.transitions, "max_depth": st.max_depth, "fixpoint": st.fixpoint}));
+        samples.extend(st.samples.into_iter().take(1));
     }
     if !fix {
         eprintln!("MACHINERY: C14 BFS did not reach its fixpoint");
         std::process::exit(2);
     }
+    // layer 2: persistent engine
+    let len = ctx.tier.pick(5usize, 6usize);
+    let mut persistent = Vec::new();
+    let (mut p_seqs, mut p_steps) = (0u64, 0u64);
+    for c in configs().into_iter().filter(|c| ["exchanges=2", "exchanges=2/links=healthy+none"].contains(&c.label.as_str()) || c.label.starts_with("set=other")) {
+        // three exchanges: one step shorter (15 symbols)
+        let l = if c.exchanges.len() > 2 { len - 1 } else { len };
+        let m = M::new(c);
+        let (seqs, steps, finals) = m.persistent(ctx, l);
+        p_seqs += seqs;
+        p_steps += steps;
+        persistent.push(json!({"configuration": m.cfg.label, "alphabet": m.persistent_alphabet().len(), "length": l, "sequences": seqs, "steps": steps, "distinct_final_flag_states": finals}));
+    }
     Outcome {
         level: "model_checking",
         coverage: json!({
             "states": states,
-            "transitions": transitions,
-            "traces_validated_against_impl": transitions,
+            "transitions": transitions + p_steps,
+            "traces_validated_against_impl": transitions + p_steps,
+            "bfs_transitions": transitions,
+            "persistent_engine_sequences": p_seqs,
+            "persistent_engine_steps": p_steps,
             "max_depth": max_depth,
             "fixpoint_reached": fix,
             "exhaustive": true,
             "per_configuration": per_n,
+            "persistent_engine_layer": persistent,
             "samples": samples,
-            "rule": "BFS to fixpoint over {market item (trade / top of book / liquidation), account item (balance / order snapshot / trade / full snapshot / cancel response), market reconnecting, account reconnecting} x exchange, for 1,2,3 exchanges, every transition executed by the real Engine::process; state = connectivity flags",
+            "rule": "layer 1: BFS to fixpoint over {market item (trade / top of book / liquidation / L2 book / candle / trade on the exchange's first instrument / late-stamped trade), account item (balance / order snapshot fully filled, open, failed by timeout, rejected / trade / full snapshot with and without orders / cancel response ok, err), market reconnecting, account reconnecting} x exchange, per configuration (exchange sets in and out of alphabetical order, trading on/off, execution links healthy/closed/absent), every transition executed by the real Engine::process; state = connectivity flags read by ExchangeId. layer 2: every sequence of the stated length over {market trade, account trade, open-order report, both notices} x exchange on one engine that is never rebuilt, same oracle after every step",
         }),
         assumptions: vec![
-            "connectivity only depends on the connectivity flags (state rebuilt from them for each transition)".into(),
+            "layer 1: connectivity only depends on the connectivity flags (state rebuilt from them for each transition); layer 2 drops this assumption up to its sequence length".into(),
             "at most 3 exchanges".into(),
+            "events name an instrument of the exchange they come from".into(),
         ],
     }
 }
 
 pub fn replay(ctx: &Ctx, case: &Value) {
     let label = case["label"].as_str().unwrap_or("exchanges=3");
-    let n: usize = label.trim_start_matches("exchanges=").parse().unwrap_or(3);
-    let m = M::new(n);
-    for (sig, detail) in bfs::replay(&m, case) {
-        ctx.violate(sig, detail, case.clone());
+    let cfg_label = label.trim_start_matches("persistent/");
+    let Some(c) = configs().into_iter().find(|c| c.label == cfg_label) else {
+        eprintln!("MACHINERY: unknown configuration {cfg_label}");
+        std::process::exit(2);
+    };
+    let m = M::new(c);
+    if case["engine"].as_str() == Some("c14-persistent") {
+        let seq: Vec<Act> = serde_json::from_value(case["seq"].clone()).expect("replay: seq does not parse");
+        for (i, (sig, detail)) in m.run_sequence(&seq).0 {
+            println!("replay step {i}: {sig}: {detail}");
+            ctx.violate(sig, detail, case.clone());
+        }
+    } else {
+        for (sig, detail) in bfs::replay(&m, case) {
+            ctx.violate(sig, detail, case.clone());
+        }
     }
 }
